@@ -668,9 +668,10 @@ class CircM(Model):
 # ------------------------------------------------------------------------------------------------
 # C21: MemoryBank
 class MemBankM(Model):
-    def __init__(self, depth, width, rp, wp, transparent, ror, gran, counters=None, struct=False):
+    def __init__(self, depth, width, rp, wp, transparent, ror, gran, counters=None, struct=False, elem=None):
         self.depth, self.width, self.rp, self.wp, self.tr, self.ror, self.gran = depth, width, rp, wp, transparent, ror, gran
-        self.struct = struct  # rows are a two-field structure {lo, hi} instead of a plain integer
+        self.struct = struct  # rows are a two-field structure {lo, hi} (True) or an array of elements ("array") instead of a plain integer
+        self.elem = elem  # (element width, element count) of array rows; `gran` is always given in bits
         self.mem = [0] * depth
         self.q = [collections.deque() for _ in range(rp)]
         self.ports = {}
@@ -727,12 +728,18 @@ class MemBankM(Model):
     def enc(self, v):
         if not self.struct:
             return v
+        if self.struct == "array":
+            ew, n = self.elem
+            return [(v >> (k * ew)) & ((1 << ew) - 1) for k in range(n)]
         h = self.width // 2
         return {"lo": v & ((1 << h) - 1), "hi": v >> h}
 
     def dec(self, d):
-        if not isinstance(d, dict):
+        if isinstance(d, int):
             return d
+        if self.struct == "array":
+            ew, n = self.elem
+            return sum(int(d[k]) << (k * ew) for k in range(n))  # a list (driven) or an index-keyed mapping (observed)
         return d["lo"] | (d["hi"] << (self.width // 2))
 
     def wr(self, mem, a):
@@ -740,10 +747,11 @@ class MemBankM(Model):
             mem[a["addr"]] = self.dec(a["data"]) if hasattr(self, "dec") else a["data"]
             return
         v = mem[a["addr"]]
+        data = self.dec(a["data"]) if hasattr(self, "dec") else a["data"]
         for g in range(self.ng):
             if a["mask"] >> g & 1:
                 m = ((1 << self.gran) - 1) << (g * self.gran)
-                v = (v & ~m) | (a["data"] & m)
+                v = (v & ~m) | (data & m)
         mem[a["addr"]] = v
 
     def nontrivial(self, c):
